@@ -69,8 +69,19 @@ Section Match.
   Variable wild : bool.
   Variable codes : bytes -> bytes.     (* exact mode: the model's colour for a container *)
 
-  Fixpoint try_each (f : nat -> rentry -> bool) (i : nat) (l : list rentry) : bool :=
-    match l with [] => false | e :: t => if f i e then true else try_each f (S i) t end.
+  (** two entries of one timestamp group that print the same line: trying the second after the first failed is redundant
+      (without this pruning a wrong output makes the search factorial in the size of a tie group) *)
+  Definition same_print (a b : rentry) : bool :=
+    bytes_eqb (trim_right_crlf (re_msg a)) (trim_right_crlf (re_msg b)) &&
+    (negb (o_container o) || bytes_eqb (re_container a) (re_container b)).
+
+  Fixpoint try_each_from (f : nat -> rentry -> bool) (i : nat) (tried l : list rentry) : bool :=
+    match l with
+    | [] => false
+    | e :: t => if existsb (same_print e) tried then try_each_from f (S i) tried t
+                else if f i e then true else try_each_from f (S i) (e :: tried) t
+    end.
+  Definition try_each (f : nat -> rentry -> bool) (i : nat) (l : list rentry) : bool := try_each_from f i [] l.
 
   Fixpoint mg (fuel : nat) (cur : list rentry) (rest : list (list rentry)) (s : bytes) (acc : list (bytes * bytes)) : bool :=
     match fuel with
